@@ -9,6 +9,10 @@ Decided (structural facts of pyttb_utils.py / khatrirao.py):
             their count equals the multiplicand count, else the sorted modes themselves
   KRAX      khatrirao reverses its argument list iff reverse is True, and folds each new factor onto the fast (first)
             axis of the final F-order flatten (new factor reshaped to (-1, 1, n), accumulator to (1, -1, n), order F)
+  HELP-dom  tt_intersect_rows / tt_setdiff_rows look rows up in their first argument's unique rows RESTORED TO ITS OWN ORDER
+            (Unique[argsort(first-occurrence index)]), so that the positions they return are indices into that argument, and
+            tt_intersect_rows lists them in the order of its second argument — the structural core of the contracts the
+            sparse checks trust
   EO-1      no reshape-family call in the two modules uses C order on array data (reviewed exceptions aside)
 Not decided: the set-algebra laws of tt_ismember_rows / tt_intersect_rows / tt_setdiff_rows / tt_union_rows (the other
 checks TRUST their documented contracts), argument parsing of corner inputs.
@@ -266,10 +270,57 @@ def _krax(prog: Program, res: Result) -> None:
         res.undecided("KRAX", short, desc, prog.loc(fi, loop[-1]), f"start {ast.unparse(start[0].value) if start else None}, iterate {it}")
 
 
+def _helpers(prog: Program, res: Result) -> None:
+    """tt_intersect_rows / tt_setdiff_rows: the indices they return address A itself.
+
+    Both look rows up with tt_ismember_rows(search, source), whose results are positions in `source`.  For those positions
+    to be indices into A (duplicate-free), `source` must be A's unique rows restored to A's own order:
+    Unique[np.argsort(first-occurrence index)] - or the positions must be mapped back through that index."""
+    for name in ("tt_intersect_rows", "tt_setdiff_rows"):
+        fi = prog.func(f"pyttb_utils.{name}")
+        a_param = fi.params()[0]
+        uniq = {}
+        for n in ast.walk(fi.node):
+            if isinstance(n, ast.Assign) and isinstance(n.targets[0], ast.Tuple) and isinstance(n.value, ast.Call) \
+                    and (dotted(n.value.func) or "").split(".")[-1] == "unique" and n.value.args and const(kwarg(n.value, "return_index")) is True:
+                u, i = n.targets[0].elts[:2]
+                if isinstance(u, ast.Name) and isinstance(i, ast.Name):
+                    uniq[ast.unparse(n.value.args[0])] = (u.id, i.id)
+        desc = f"{name} returns indices into its first argument (unique rows restored to the argument's own order before the look-up)"
+        call = [c for c in ast.walk(fi.node) if isinstance(c, ast.Call) and (dotted(c.func) or "") == "tt_ismember_rows" and len(c.args) == 2]
+        if not call or a_param not in uniq:
+            res.undecided("HELP-dom", fi.short, desc, prog.loc(fi), "unique / ismember structure not recognised")
+            continue
+        u, i = uniq[a_param]
+        src = ast.unparse(call[0].args[1]).replace(" ", "")
+        restored = f"{u}[np.argsort({i})]"
+        mapped_back = any(isinstance(n, ast.Subscript) and isinstance(n.value, ast.Name) and n.value.id == i and "location" in ast.unparse(n.slice)
+                          for n in ast.walk(fi.node))
+        if src == restored or mapped_back:
+            res.ok("HELP-dom", fi.short, desc, prog.loc(fi, call[0]), f"source = {src}")
+        elif src == u:
+            res.bad("HELP-dom", fi.short, desc, prog.loc(fi, call[0]),
+                    f"rows are looked up in `{u}` (np.unique's SORTED order): the returned positions index the sorted unique list, "
+                    f"not `{a_param}` - wrong whenever `{a_param}` is not stored in sorted order")
+        else:
+            res.undecided("HELP-dom", fi.short, desc, prog.loc(fi, call[0]), f"source = {src}")
+        # the search list follows B's own order (documented: sequence follows the second argument)
+        b_param = fi.params()[1]
+        if name == "tt_intersect_rows" and b_param in uniq:
+            ub, ib = uniq[b_param]
+            srch = ast.unparse(call[0].args[0]).replace(" ", "")
+            d2 = "tt_intersect_rows lists the common rows in the order of its second argument"
+            if srch == f"{ub}[np.argsort({ib})]":
+                res.ok("HELP-dom", fi.short, d2, prog.loc(fi, call[0]), f"search = {srch}")
+            else:
+                res.bad("HELP-dom", fi.short, d2, prog.loc(fi, call[0]), f"search list is `{srch}`: callers that rely on the documented order pair wrong entries")
+
+
 def check(prog: Program, res: Result, tier: str) -> None:
     res.explanation = __doc__.split("\n\n", 1)[1]
     res.assumptions = ["np.ravel_multi_index / np.unravel_index are mutual inverses for equal `order`; np.argsort is ascending and stable enough for distinct modes"]
-    res.floors = {"IDX-inv": 3, "DIMS": 4, "KRAX": 3, "EO-1": 4}
+    res.floors = {"IDX-inv": 3, "DIMS": 4, "KRAX": 3, "EO-1": 4, "HELP-dom": 3}
+    _helpers(prog, res)
     _idx(prog, res)
     _dims(prog, res)
     _krax(prog, res)
